@@ -570,12 +570,13 @@ func PutBystanders(s *sim.Server, n int) []string {
 type NameTracker struct {
 	mu    sync.Mutex
 	named map[string]bool
+	hooks map[string]bool // the subset named by hooks
 	ns    string
 }
 
 // TrackNames installs the tracker as the simulator's Gate.
 func TrackNames(w *env.World, rel, ns, agentPrefix string) *NameTracker {
-	t := &NameTracker{named: map[string]bool{}, ns: ns}
+	t := &NameTracker{named: map[string]bool{}, hooks: map[string]bool{}, ns: ns}
 	w.Sim.Gate = func(r *sim.Req) {
 		if DriftTrace != nil {
 			DriftTrace(r)
@@ -591,7 +592,25 @@ func TrackNames(w *env.World, rel, ns, agentPrefix string) *NameTracker {
 func (t *NameTracker) Add(recs []env.Rec) {
 	t.mu.Lock()
 	ref.ReleaseObjectKeys(t.named, recs, t.ns)
+	for _, r := range recs {
+		for _, d := range ref.HookDocs(r, t.ns) {
+			if d.Key != "" {
+				t.hooks[d.Key] = true
+			}
+		}
+	}
 	t.mu.Unlock()
+}
+
+// HookSnapshot returns the keys named by hooks of any revision seen so far.
+func (t *NameTracker) HookSnapshot() map[string]bool {
+	t.mu.Lock()
+	defer t.mu.Unlock()
+	out := make(map[string]bool, len(t.hooks))
+	for k := range t.hooks {
+		out[k] = true
+	}
+	return out
 }
 
 func (t *NameTracker) Snapshot() map[string]bool {
@@ -639,6 +658,8 @@ type StepObs struct {
 	// Named: every store key named in a manifest or hook of any revision of the release seen so
 	// far in this history (ledger before/after every op, and at the time of every DELETE request)
 	Named map[string]bool
+	// NamedHooks: the subset of Named that hooks name
+	NamedHooks map[string]bool
 	// OtherL0/OtherL1: ledger of the second release
 	OtherL0, OtherL1 []env.Rec
 }
@@ -709,6 +730,7 @@ func RunDriftHistory(dc DriftCase, each func(w *env.World, o *StepObs)) *env.Wor
 		}
 		nt.Add(o.L1)
 		o.Named = nt.Snapshot()
+		o.NamedHooks = nt.HookSnapshot()
 		each(w, o)
 		if o.Success() {
 			drifted = map[string][]string{}
